@@ -5,8 +5,8 @@ C16 — every shipped heuristic template keeps the population stack balanced.
   the abstract interpreter (all condition outcomes, all iteration counts, all failure points, any fuel).
 * `<template>_v<i>_balanced`: the analysis, evaluated by the kernel on the component tree that the
   real constructor built in THIS run (`Generated/Templates.lean`, regenerated from `/repo` on every
-  check), answers `true` — for the two iterated-local-search templates it answers `false`
-  (their loop body has net effect +1: a genuine, recorded defect).
+  check), answers `true` for all 21 templates (the iterated-local-search templates since repair 364645e; before
+  it their loop body had net effect +1).  For ALL parameter values: `Props/C16Param.lean`.
 -/
 import MahfModel.Proofs.C16
 import MahfModel.Generated.Templates
